@@ -8,7 +8,7 @@ def setup(rng, mode=None, owners=False, links=False, bad=False, popts=False, rel
     """returns dict(cmds, layers, name, sfx, confdirs, read (command reading into object 0), hist (history command or None))"""
     name = rng.choice([b"foo", b"bar"])
     sfx = rng.choice([b"conf", b".conf", b"conf", None, b""])
-    confdirs = rng.choice([None, None, [b".conf.d", b".d"], [b".d"]] + ([[b"/conf.d", b""]] if sfx else []))
+    confdirs = rng.choice([None, None, [b".conf.d", b".d"], [b".d"], [b".d", b".conf.d"], [b".d", b".a-much-longer-directory-format.d", b".x"]] + ([[b"/conf.d", b""]] if sfx else []))
     mode = rng.randrange(4) if mode is None else mode
     cmds = []
     hist = None
